@@ -23,11 +23,15 @@ func init() {
 		ID:    "C09",
 		Level: "exploration",
 		Rule: "case = one correctly issued document (DG1 + random data groups + EF.SOD, optionally CardSecurity) over the issuing-profile matrix: CSCA key x DS key (RSA-2048/3072/4096 with PKCS#1 v1.5 or PSS; ECDSA on the 11 curves, named or explicit parameters) x digest SHA-1..512 x signer identifier (issuer+serial / subject key identifier) x LDS security object version x signing time (absent, strictly inside, equal to notBefore, equal to notAfter of DS / CSCA) x encoding (DER; BER with indefinite lengths on a random subset of CMS containers) x harmless variations (SID issuer with other attribute order / string type / letter case, extra embedded certificates, same-SKI anchor whose signature check fails placed first, several countries in the store), judged by passiveauth.PassiveAuth; " +
+			"plus (berlevel cases) the same documents with the indefinite form on an explicitly chosen set of the 17 constructed levels of the EF.SOD SignedData (every level alone, encoder-like combinations with and without the outermost SEQUENCE, random subsets of every density, two thirds with a definite outermost SEQUENCE) and a DER CardSecurity next to it; " +
+			"plus (rotation cases) EF.CardSecurity signed by another document signer (optionally below a second CSCA) at its own signing time, that signer's window lying after / before / apart from the SOD's signing time and vice versa, each object inside its own signer's window, signing-time attribute present or absent on either object, judged by PassiveAuth and by SignedData.Verify on each object alone; " +
 			"oracle: success; non-trivial = every document; distinct = the profile tuple",
 		MinEvaluations: 250,
 		Assumptions: []string{
 			"RSA keys >= 2048 bits; PSS with MGF1 over the message hash and explicit parameters; the outer 0x77 length is definite; embedded certificates stay DER (their signatures cover the encoding); extra certificates belong to the same country",
 			"certificate validity is judged at the signing-time attribute of the generated object, never at the wall clock",
+			"berlevel cases demand acceptance only when the signed attributes stay DER (RFC 5652 5.3), the eContent OCTET STRING is primitive and at least one indefinite level is one the first encoding/asn1 pass reads (the library documents the normalisation as a retry after a failed first parse); objects outside that class (indefinite form only inside the raw-captured issuer Name of the SID, BER signed attributes, constructed eContent, BER CardSecurity) are generated and counted in observe_only counters, never judged",
+			"rotation cases: an object without signing-time attribute is not judged for validity (cms.resolveSigningTime documents this), so it is genuine whatever its signer's window",
 		},
 		Run: runC09,
 	})
@@ -52,6 +56,14 @@ type c09Profile struct {
 	digestNull       bool
 	cardSecurity     bool
 	country          int
+
+	// structural BER dimension (c09_ber.go): which constructed levels of the EF.SOD
+	// SignedData use the indefinite form, instead of the random subset below a forced
+	// outermost level that `ber` selects
+	berLevels bool
+	berMask   issuer.CMSLevels
+	berSeg    int              // eContent OCTET STRING: 0 primitive, 1 constructed/definite, 2 constructed/indefinite
+	csMask    issuer.CMSLevels // levels tried on the CardSecurity object (observation only)
 }
 
 func (p c09Profile) String() string {
@@ -61,8 +73,12 @@ func (p c09Profile) String() string {
 		}
 		return ecref.All()[k-3].Name
 	}
-	return fmt.Sprintf("csca=%s pss=%v expl=%v ds=%s pss=%v expl=%v digest=%v certhash=%v sidSKI=%v ldsV1=%v time=%d ber=%v sidvar=%d extra=%d cross=%v multi=%v plainRSA=%v dnull=%v cardsec=%v cc=%d",
+	s := fmt.Sprintf("csca=%s pss=%v expl=%v ds=%s pss=%v expl=%v digest=%v certhash=%v sidSKI=%v ldsV1=%v time=%d ber=%v sidvar=%d extra=%d cross=%v multi=%v plainRSA=%v dnull=%v cardsec=%v cc=%d",
 		kn(p.cscaKind), p.cscaPSS, p.cscaExplicit, kn(p.dsKind), p.dsPSS, p.dsExplicit, p.digest, p.certHash, p.bySKI, p.ldsV1, p.timeMode, p.ber, p.sidVariant, p.extraCerts, p.crossAnchor, p.multiCountry, p.plainRSAOID, p.digestNull, p.cardSecurity, p.country)
+	if p.berLevels {
+		s += fmt.Sprintf(" levels=%s seg=%d cslevels=%s", p.berMask, p.berSeg, p.csMask)
+	}
+	return s
 }
 
 func c09Key(r *mrand.Rand, kind int, explicit bool) *issuer.Key {
@@ -109,6 +125,11 @@ type c09Doc struct {
 	trust [][]byte
 	sod   []byte
 	note  string
+	// berApplied: the levels of berMask that exist in this object; berRequired: acceptance
+	// is demanded (see c09BerRequired); berWhy: the class when it is not
+	berApplied  issuer.CMSLevels
+	berRequired bool
+	berWhy      string
 }
 
 // c09Build issues the document; it returns the library Document and the trust store.
@@ -206,10 +227,26 @@ func c09Build(k *fw.K, r *mrand.Rand, p c09Profile) *c09Doc {
 		})
 		note = fmt.Sprintf("indefinite-containers=%d", n)
 	}
+	berApplied, berRequired, berWhy := issuer.CMSLevels(0), true, ""
+	if p.berLevels {
+		ci, berApplied = issuer.IndefiniteLevels(ci, p.berMask)
+		if p.berSeg != 0 {
+			var ok bool
+			if ci, ok = issuer.SegmentEContent(ci, []int{r.IntN(40), r.IntN(3), 1 + r.IntN(200)}, p.berSeg == 2); !ok {
+				fw.Bug("SegmentEContent: no eContent in a generated object")
+			}
+		}
+		berRequired, berWhy = c09BerRequired(p, berApplied)
+		note = fmt.Sprintf("indefinite-levels=%s seg=%d", berApplied, p.berSeg)
+	}
 	sod := issuer.WrapSOD(ci)
-	d := &c09Doc{doc: &document.Document{}, sod: sod, note: note}
+	d := &c09Doc{doc: &document.Document{}, sod: sod, note: note, berApplied: berApplied, berRequired: berRequired, berWhy: berWhy}
 	var err error
 	if d.doc.Mf.Lds1.Sod, err = document.NewSOD(sod); err != nil {
+		if p.berLevels {
+			c09BerSODRejected(k, p, d, err)
+			return nil
+		}
 		k.Violation("pa:genuine-sod-rejected:"+c09Class(p), fmt.Sprintf("NewSOD rejects a correctly issued security object: %v", err), map[string]any{"profile": p.String(), "sod": hexCap(sod, 3000), "note": note})
 		return nil
 	}
@@ -227,6 +264,9 @@ func c09Build(k *fw.K, r *mrand.Rand, p c09Profile) *c09Doc {
 			s2.SigningTime = &st
 		}
 		cs := issuer.BuildSignedData(r, s2)
+		if p.csMask != 0 {
+			c09ObserveBERCardSecurity(k, cs, p.csMask)
+		}
 		if d.doc.Mf.CardSecurity, err = document.NewCardSecurity(cs); err != nil {
 			k.Violation("pa:genuine-cardsecurity-rejected", fmt.Sprintf("NewCardSecurity rejects a correctly issued object: %v", err), map[string]any{"profile": p.String(), "card_security": hexCap(cs, 3000)})
 			return nil
@@ -332,4 +372,13 @@ func runC09(c *fw.Ctx) {
 	_ = time.Now
 	n := c.Pick(392, 40768)
 	c.Cases(n, func(i int) string { return fmt.Sprintf("doc|i=%d", i) }, func(i int, k *fw.K) { c09Case(k, i) })
+	// which constructed levels of the EF.SOD use the indefinite form (c09_ber.go)
+	plan := c09BerPlan(c)
+	c.Cases(len(plan), func(i int) string {
+		return fmt.Sprintf("berlevel|i=%d %s levels=%s seg=%d", i, plan[i].label, plan[i].mask, plan[i].seg)
+	},
+		func(i int, k *fw.K) { c09BerCase(c, k, i, plan[i]) })
+	// EF.CardSecurity with its own signer / signing time / validity window (c09_rotation.go)
+	nr := c.Pick(128, 6400)
+	c.Cases(nr, func(i int) string { return fmt.Sprintf("rotation|i=%d %s", i, c09RotPlanOf(i)) }, func(i int, k *fw.K) { c09RotationCase(k, i) })
 }
